@@ -22,24 +22,35 @@
 (* body contains the rules / configuration ids and hashes / the node the   *)
 (* trace is placed on).                                                    *)
 (*                                                                         *)
-(* Tokens are names; T is the harness's reference token:                   *)
-(*   configured: "none" (QueryAuthToken absent), "set" (= T)               *)
-(*   request:    "absent" (no header), "empty" (header with empty value),  *)
-(*               "prefix" (T minus its last character), "suffix" (T plus   *)
-(*               one character), "case" (T with the case of its letters    *)
-(*               swapped), "other" (an unrelated string), "wrongheader"    *)
-(*               (T, but sent as X-Honeycomb-Team), "exact" (T)            *)
+(* Tokens.  The reference token T(L) is a sequence of L characters; the    *)
+(* vector names the configured token (T(L), or none) and HOW the request's *)
+(* token is derived from T(L); the specification builds both as character  *)
+(* sequences and Allowed compares the sequences, so that "exactly that     *)
+(* token" is computed, not assumed per variant.  The harness builds the    *)
+(* concrete strings from the same description (kind, cut, len):            *)
+(*   absent       no header                                                *)
+(*   empty        header with an empty value                               *)
+(*   wrongheader  T, but sent as X-Honeycomb-Team                          *)
+(*   other        an unrelated string                                      *)
+(*   case         T with the case of its letters swapped                   *)
+(*   exact        T                                                        *)
+(*   prefix       the first `cut` characters of T             (cut < L)    *)
+(*   sametail     the first `cut` characters of T followed by L - cut      *)
+(*                different characters (same length as T)     (cut < L)    *)
+(*   extend       T followed by `cut` more characters                      *)
+(* L ranges over several lengths and cut over several cut points (first    *)
+(* character, around 32, the middle, all but the last character): a        *)
+(* comparison that looks at a bounded window, a hash of a part, or a       *)
+(* length-insensitive compare shows up as a wrongly granted variant.       *)
 (***************************************************************************)
 EXTENDS Integers, Sequences, FiniteSets, TLC, Json
 
 CONSTANTS AllFormats,  \* FALSE: json only; TRUE: json, yaml and toml
-          Routers      \* subset of {"incoming", "peer"}: both of a node's routers serve /query/
+          Routers,     \* subset of {"incoming", "peer"}: both of a node's routers serve /query/
+          Lengths      \* lengths of the reference token
 
 VARIABLES vec, outs, act
 vars == <<vec, outs, act>>
-
-CfgTokens == {"none", "set"}
-ReqTokens == {"absent", "empty", "prefix", "suffix", "case", "other", "wrongheader", "exact"}
 
 AllTargets ==
   << [route |-> "trace",          fmt |-> "-"],
@@ -52,15 +63,33 @@ AllTargets ==
      [route |-> "configmetadata", fmt |-> "-"] >>
 Targets == IF AllFormats THEN AllTargets ELSE << AllTargets[1], AllTargets[2], AllTargets[5], AllTargets[8] >>
 
-Vectors == [router : Routers, cfg : CfgTokens, req : ReqTokens]
+PlainKinds == {"absent", "empty", "wrongheader", "other", "case", "exact"}
+Cuts(L)    == ({1, 31, 32, 33, 64} \cup {L \div 2, L - 1}) \cap (1 .. (L - 1))
+Extras     == {1, 32}
+
+Vectors ==
+  {[router |-> r, cfgSet |-> c, len |-> L, kind |-> k, cut |-> 0] : r \in Routers, c \in BOOLEAN, L \in Lengths, k \in PlainKinds}
+  \cup UNION {{[router |-> r, cfgSet |-> c, len |-> L, kind |-> k, cut |-> n] : r \in Routers, c \in BOOLEAN, k \in {"prefix", "sametail"}, n \in Cuts(L)} : L \in Lengths}
+  \cup {[router |-> r, cfgSet |-> c, len |-> L, kind |-> "extend", cut |-> n] : r \in Routers, c \in BOOLEAN, L \in Lengths, n \in Extras}
+
+\* characters: "a" a letter of T, "A" the same letter in the other case, "z" a different character
+Rep(ch, n) == [i \in 1 .. n |-> ch]
+T(L) == Rep("a", L)
 
 \* the value the server reads from the X-Honeycomb-Refinery-Query header
-HeaderValue(r) == IF r \in {"absent", "empty", "wrongheader"} THEN "" ELSE r
+HeaderValue(v) ==
+  CASE v.kind \in {"absent", "empty", "wrongheader"} -> <<>>
+    [] v.kind = "other"    -> <<"o", "t", "h", "e", "r">>
+    [] v.kind = "case"     -> Rep("A", v.len)
+    [] v.kind = "exact"    -> T(v.len)
+    [] v.kind = "prefix"   -> SubSeq(T(v.len), 1, v.cut)
+    [] v.kind = "sametail" -> SubSeq(T(v.len), 1, v.cut) \o Rep("z", v.len - v.cut)
+    [] v.kind = "extend"   -> T(v.len) \o Rep("z", v.cut)
 \* the configured value
-CfgValue(c) == IF c = "set" THEN "exact" ELSE ""
+CfgValue(v) == IF v.cfgSet THEN T(v.len) ELSE <<>>
 
 \* C25: a non-empty token is configured and the request carries exactly it
-Allowed(v) == CfgValue(v.cfg) # "" /\ HeaderValue(v.req) = CfgValue(v.cfg)
+Allowed(v) == CfgValue(v) # <<>> /\ HeaderValue(v) = CfgValue(v)
 
 Outcome(v) == IF Allowed(v) THEN [ok |-> TRUE, data |-> TRUE] ELSE [ok |-> FALSE, data |-> FALSE]
 
@@ -88,21 +117,21 @@ TypeOK == /\ vec \in Vectors
                                /\ outs[i].ok \in BOOLEAN /\ outs[i].data \in BOOLEAN
 
 \* C25: data only with the configured, non-empty token
-DataOnlyWithToken == \A i \in 1 .. N : outs[i].data => (vec.cfg = "set" /\ vec.req = "exact")
+DataOnlyWithToken == \A i \in 1 .. N : outs[i].data => (vec.cfgSet /\ vec.kind = "exact")
 
 \* C25: "otherwise it returns an error and reveals no configuration or trace placement"
-ErrorOtherwise == \A i \in 1 .. N : ~(vec.cfg = "set" /\ vec.req = "exact") => (~outs[i].ok /\ ~outs[i].data)
+ErrorOtherwise == \A i \in 1 .. N : ~(vec.cfgSet /\ vec.kind = "exact") => (~outs[i].ok /\ ~outs[i].data)
 
 \* no token configured: inaccessible whatever the request says
-InaccessibleWithoutToken == vec.cfg = "none" => \A i \in 1 .. N : ~outs[i].ok /\ ~outs[i].data
+InaccessibleWithoutToken == ~vec.cfgSet => \A i \in 1 .. N : ~outs[i].ok /\ ~outs[i].data
 
 \* all routes and formats answer a vector alike
 Uniform == \A i, j \in 1 .. N : outs[i].ok = outs[j].ok /\ outs[i].data = outs[j].data
 
 \* the endpoints are usable at all (the check is not satisfied by refusing everything)
-UsableWithToken == (vec.cfg = "set" /\ vec.req = "exact") => \A i \in 1 .. N : outs[i].ok /\ outs[i].data
+UsableWithToken == (vec.cfgSet /\ vec.kind = "exact") => \A i \in 1 .. N : outs[i].ok /\ outs[i].data
 
-Abs == [router |-> vec.router, cfg |-> vec.cfg, req |-> vec.req, outs |-> outs]
+Abs == [router |-> vec.router, cfgSet |-> vec.cfgSet, len |-> vec.len, kind |-> vec.kind, cut |-> vec.cut, outs |-> outs]
 St == Abs
 Dump == PrintT(ToJson([fs |-> St, fa |-> act.name, act |-> act', ts |-> St', fabs |-> Abs, tabs |-> Abs']))
 View == <<vec, outs>>
